@@ -209,6 +209,8 @@ def tex_atom(a, inmath=False):
         return '\\begin{verse}%s line \\end{verse} ' % ('[3pt]' if a.get('opt') else '')
     if k == 'bold':
         return '\\textbf%s{%s} ' % ('<2>' if a.get('overlay') else '', a['w'])
+    if k == 'citealias':
+        return '\\defcitealias{%s}{Paper I} ' % a['k']
     if k == 'raw':
         return a['s']
     raise ValueError(a)
@@ -325,6 +327,9 @@ def tok_atoms(atoms, out, reads):
             if c is not None:
                 out.append([12, c])
                 reads.append(('weak', 'textbf.args'))
+        elif k == 'citealias':
+            out.append([8, 2])
+            out.append([11, cell('defcitealias.aliases'), 1])
         elif k == 'raw':
             out.append(0)
         else:
@@ -552,6 +557,8 @@ def hand_cases():
     out.append(('tabular-class-token', [D('report', [dict(a='tabular', spec='lc')])], D('report', [dict(a='tabular', spec='rl'), txt('t')])))
     out.append(('coltype-registry', [D('report', [dict(a='tabular', spec='Zl')], pkgs=['vfcoltype'])], D('report', [dict(a='tabular', spec='Zl')])))
     out.append(('natbib-sectionbib', [D('book', [txt('a')], pkgs=[['natbib', 'sectionbib']])], D('book', [txt('b')])))
+    out.append(('natbib-citealias', [D('report', [dict(a='citealias', k='k'), txt('x')], pkgs=['natbib'])],
+                D('report', [dict(a='raw', s='\\citetalias{k} '), txt('y')], pkgs=['natbib'])))
     out.append(('newif-newcount', [D('report', [dict(a='newif'), dict(a='newcount', v=4)])], D('report', [dict(a='newif'), dict(a='newcount', v=6)])))
     out.append(('twice', [B_lists], B_lists))
     out.append(('twice-regs', [D('report', [dict(a='param', reg='tolerance', v=3), rd('tolerance')])],
@@ -602,21 +609,21 @@ def streams(rng, tier, boost):
     pairs = [(i, j) for i in range(len(pool)) for j in range(len(pool))]
     if tier == 'quick' and boost == 1:
         rng.shuffle(pairs)
-        pairs = pairs[:150]
+        pairs = pairs[:120]
     for i, j in pairs:
         out.append(('exhaustive-pairs', dict(kind='seq', name='pair-%d-%d' % (i, j), docs=[pool[i]], B=pool[j])))
-    n = (500 if tier == 'quick' else 4000) * boost
+    n = (300 if tier == 'quick' else 4000) * boost
     for i in range(n):
         k = rng.choice([1, 1, 2, 2, 3, 4])
         As = [rand_doc(rng) for _ in range(k)]
         B = rand_doc(rng, allow_open=rng.random() < 0.3, role='B')
         out.append(('random', dict(kind='seq', name='rnd', docs=As, B=B)))
-    for i in range((120 if tier == 'quick' else 800) * boost):
+    for i in range((80 if tier == 'quick' else 800) * boost):
         k = rng.choice([1, 2, 3])
         As = [rand_doc(rng) for _ in range(k)]
         B = rng.choice(As)
         out.append(('twice', dict(kind='seq', name='twice', docs=As, B=B)))
-    for i in range((80 if tier == 'quick' else 500) * boost):
+    for i in range((50 if tier == 'quick' else 500) * boost):
         junk = rng.choice(['\\end{itemize} ', '} ', '\\begin{center} ', '\\fi ', '{ ', '$ $ $ ', '\\item x ', '\\mbox{ ', '\\right) '])
         A = rand_doc(rng)
         A['body'].insert(rng.randint(0, len(A['body'])), dict(a='raw', s=junk))
